@@ -7,7 +7,7 @@ from .c05 import same_value
 
 ID = "C06"
 LEVEL = "proof"
-PROPS_MODULE = "SymmModel.Props.C06"
+PROPS_MODULE = "SymmModel.Props.C06All"
 THEOREMS = [
     "SymmModel.C06.dropMisaligned_blocks_fst",
     "SymmModel.C06.dropMisaligned_blocks_snd",
@@ -17,10 +17,18 @@ THEOREMS = [
     "SymmModel.C06.align_irrelevant_blocks",
     "SymmModel.C06.align_irrelevant",
     "SymmModel.C06.align_irrelevant_tensordotA",
-    "SymmModel.C06.dropMisaligned_keeps_sector_length"
+    "SymmModel.C06.dropMisaligned_keeps_sector_length",
+    "SymmModel.C06.aligned_fused_tables_match",
+    "SymmModel.C06.fused_tables_match_generic",
+    "SymmModel.C06.tensordotFused_obs_eq_blockwise",
+    "SymmModel.C06.tensordotFused_extra_blocks_zero",
+    "SymmModel.C06.tensordotFused_matrix_elem",
+    "SymmModel.C06.fused_product_elem",
+    "SymmModel.C06.tensordotA_modes_agree",
+    "SymmModel.C06.tensordotFused_empty_alignment"
 ]
-LEAN_FILES = ["SymmModel.Props.C06", "SymmModel.Proofs.TdotLemmas", "SymmModel.Proofs.Accum", "SymmModel.Proofs.BlkLemmas"]
-PLANNED = ["aligned_fused_tables_match", "tensordotFused_obs_eq_blockwise", "tensordot_fuse_commute", "fermionic versions"]
+LEAN_FILES = ["SymmModel.Props.C06", "SymmModel.Proofs.TdotLemmas", "SymmModel.Proofs.Accum", "SymmModel.Proofs.BlkLemmas", "SymmModel.Props.C06b", "SymmModel.Props.C06All", "SymmModel.Proofs.TdotFused1", "SymmModel.Proofs.TdotFused2", "SymmModel.Proofs.TdotFused3", "SymmModel.Proofs.TdotFused4", "SymmModel.Proofs.TdotFused5", "SymmModel.Proofs.TdotFused6", "SymmModel.Proofs.TdotFused7"]
+PLANNED = ["fused path with an empty left or right group (vector / scalar results)", "fused mode with no contracted axes", "tensordot_fuse_commute (fusing free legs before vs after)", "fermionic versions"]
 RULE = ("random contractible pairs (abelian and fermionic, even/odd parity, all symmetries, sparse operands whose "
         "present sectors differ, operands with a pre-fused free leg); modes fused/blockwise/auto compared with each "
         "other, with the Lean model, and with the explicit route align -> fuse contracted legs on both operands -> "
